@@ -24,6 +24,8 @@ def run(ctx):
     simrules.controlled_special_case_rule(ctx, 'C01.e')
     simrules.classical_basis_index_rule(ctx, 'C01.f')
     simrules.merged_state_rule(ctx, 'C01.g')
+    simrules.integer_digit_rule(ctx, 'C01.h')
+    ctx.decided.append('C01.h an integer initial state is split into per-qudit digits with integer arithmetic only')
     ctx.decided.append('C01.g every merged product state is built from the zero-qubit factor that carries the global phase')
     ctx.decided.append('C01.f every basis[k] in the classical simulator is indexed by a position its qubits map to')
     ctx.decided.append('C01.e code that special-cases controlled gates (the classical simulator, the controlled() shortcuts, nested-control flattening) consults control_values')
